@@ -74,6 +74,7 @@ def c18_rf5(run):
     rf_state.rf5(run, units=('mir', 'gen', 'c2mir', 'mir2c'))
     rf_state.nonreentrant(run)
     run.min_instances('RF5', 100)
+    rf_state.rf5s(run)
     sh = run.shadow()
     rf_state.rf5(sh, units=(run.control_tu('rf5_control.c'),))
     got = {f.construct.split(':')[0] for f in sh.findings}
